@@ -1661,7 +1661,11 @@ impl<'a> Searcher<'a> {
                 return Variant::empty(VariantType::String);
             }
             Field::IsShebang => {
-                return Variant::from_bool(is_shebang(&entry.path()));
+                // like the other columns that read the file, empty when the file cannot be read
+                return match is_shebang(&entry.path()) {
+                    Some(shebang) => Variant::from_bool(shebang),
+                    None => Variant::empty(VariantType::Bool),
+                };
             }
             Field::IsEmpty => match file_info {
                 Some(file_info) => {
